@@ -1,6 +1,6 @@
 (* C20 — property theorems only. Each is closed by [exact] of a lemma of Proofs.v. *)
 From Coq Require Import List ZArith QArith Bool Permutation.
-From Gst Require Import lib.QAux C20.Model C20.Spec C20.Proofs C20.Generic C20.Cyclic C20.Scale.
+From Gst Require Import lib.QAux C20.Model C20.Spec C20.Proofs C20.Generic C20.Cyclic C20.Scale C20.Select.
 Import ListNotations.
 Local Open Scope Q_scope.
 
@@ -76,6 +76,35 @@ Proof. exact on_boundary_b_spec. Qed.
 Print Assumptions C20_boundary_filter.
 
 (* Non-vacuity: a comb polygon, query level with three vertices and one horizontal edge, off boundary *)
+(* db_polygon: complete characterisation of one sample's answer (old selection, vertical limits through
+   polygons_inside, longitude periodicity = union of the answers at x-360, x, x+360) *)
+Theorem C20_selection_spec : forall pes fs fp nested s,
+  db_polygon_one pes fs fp nested s =
+  (negb fs || s_active s) &&
+  (polygons_inside pes (s_xy s) (s_z s) nested ||
+   (fp && (polygons_inside pes (shiftx (-(360#1)) (s_xy s)) (s_z s) nested ||
+           polygons_inside pes (shiftx (360#1) (s_xy s)) (s_z s) nested))).
+Proof. exact db_polygon_one_spec. Qed.
+Print Assumptions C20_selection_spec.
+
+(* the selection is decided sample by sample: one answer per sample, a function of that sample alone *)
+Theorem C20_selection_pointwise : forall pes fs fp nested db,
+  length (db_polygon pes fs fp nested db) = length db /\
+  forall i, (i < length db)%nat ->
+    nth i (db_polygon pes fs fp nested db) false = db_polygon_one pes fs fp nested (nth i db s_dflt).
+Proof. intros; split; [apply db_polygon_length | intros; apply db_polygon_pointwise; assumption]. Qed.
+Print Assumptions C20_selection_pointwise.
+
+(* with flag_sel the new selection is a subset of the old one; periodicity only adds samples *)
+Theorem C20_selection_narrows : forall pes fp nested s,
+  db_polygon_one pes true fp nested s = true -> s_active s = true.
+Proof. exact db_polygon_narrows. Qed.
+Print Assumptions C20_selection_narrows.
+Theorem C20_selection_period_monotone : forall pes fs nested s,
+  db_polygon_one pes fs false nested s = true -> db_polygon_one pes fs true nested s = true.
+Proof. exact db_polygon_period_monotone. Qed.
+Print Assumptions C20_selection_period_monotone.
+
 Example C20_nonvacuous :
   let pts := [(0,0); (6,0); (6,4); (5,2); (4,4); (3,2); (2,2); (1,4); (0,4); (0,0)] in
   on_boundary_b pts (9#2, 2) = false /\ inside2d pts (9#2, 2) = true /\
